@@ -33,7 +33,7 @@ def make_engine(mir_text, src_root, features=(), src_globs=('lib/src/**/*.rs',),
 def run_path(e, job, prefix):
     fn = getattr(importlib.import_module(job.module), job.func)
     e.reset_path(prefix)
-    if job.max_steps: e.max_steps = job.max_steps
+    e.max_steps = job.max_steps or 3_000_000
     e.path_violations = []
     rec = {'status': 'ok', 'info': None, 'err': None}
     try:
@@ -93,7 +93,7 @@ class JobResult:
         self.panics = collections.Counter()
 
 
-def run_jobs(jobs, nproc=None, deadline_s=None, keep_infos=False, progress=None):
+def run_jobs(jobs, nproc=None, deadline_s=None, keep_infos=False, progress=None, violation_cap=150):
     """explore all paths of all jobs; returns (list of JobResult, aggregate dict)"""
     global _JOBS
     _JOBS = jobs
@@ -143,6 +143,10 @@ def run_jobs(jobs, nproc=None, deadline_s=None, keep_infos=False, progress=None)
                     if len(r.samples) < 4: r.samples.append(rec['info'])
                     if keep_infos: r.infos.append(rec['info'])
             j = r.job
+            if sum(len(x.violations) for x in results if not x.job.canary) >= violation_cap:
+                # enough counterexamples to report (only the first few dozen are replayed): stop exploring
+                for x in results: x.stopped = True
+                work.clear(); continue
             if (j.stop_after_violations and len(r.violations) >= j.stop_after_violations) or \
                (j.max_paths and r.paths >= j.max_paths) or r.status['unsupported']:
                 if leftover and j.max_paths and r.paths >= j.max_paths and not j.canary:
